@@ -1,6 +1,7 @@
 // @id C05.table
 // @engine B
 // @entry vfh_C05_table
+// @shared_state_watch
 // @tier Q
 // @reach table.checked
 // @funcs CSelectedOutput::PushBack; CSelectedOutput::EndRow; CSelectedOutput::Get; VarCopy; VarClear
